@@ -12,13 +12,18 @@ type TagsUpdate struct {
 
 var _ proto.Packet = (*TagsUpdate)(nil)
 
+// maxTagsPrealloc caps the size hint of the maps built while decoding.
+const maxTagsPrealloc = 256
+
 func (p *TagsUpdate) Decode(c *proto.PacketContext, rd io.Reader) (err error) {
 	size, err := util.ReadVarInt(rd)
 	if err != nil {
 		return err
 	}
 
-	p.Tags = make(map[string]map[string][]int, size)
+	// The counts come from the peer: they bound the loops below, which stop at the
+	// first read error, but must not pre-size the maps.
+	p.Tags = make(map[string]map[string][]int, min(max(size, 0), maxTagsPrealloc))
 	for i := 0; i < size; i++ {
 		key, err := util.ReadString(rd)
 		if err != nil {
@@ -30,7 +35,7 @@ func (p *TagsUpdate) Decode(c *proto.PacketContext, rd io.Reader) (err error) {
 			return err
 		}
 
-		innerMap := make(map[string][]int, innerSize)
+		innerMap := make(map[string][]int, min(max(innerSize, 0), maxTagsPrealloc))
 		for j := 0; j < innerSize; j++ {
 			innerKey, err := util.ReadString(rd)
 			if err != nil {
